@@ -21,13 +21,22 @@ func regCheck(prop, head string, f propCheck) {
 	propChecks[prop][head] = f
 }
 
-func runOracle(prop string, out *bufio.Writer) {
+func runOracle(prop string, from int, out *bufio.Writer) {
 	checks := propChecks[prop]
+	idx := -1
 	sc := bufio.NewScanner(os.Stdin)
 	sc.Buffer(make([]byte, 1<<20), 1<<26)
 	ev, nt := 0, 0
 	for sc.Scan() {
 		line := sc.Text()
+		idx++
+		if idx < from {
+			continue
+		}
+		// progress marker: lets the driver find the case that killed the process (fatal runtime errors
+		// such as out-of-memory cannot be recovered)
+		fmt.Fprintf(os.Stderr, "@%d\n", idx)
+		out.Flush()
 		sx, err := parseSx(line)
 		if err != nil {
 			continue
